@@ -1,5 +1,5 @@
 (* Case runner and spec checker (T3) for C08. *)
-From WI Require Import Lib.Base Lib.Info Model.Cost.
+From WI Require Import Lib.Base Lib.Info Model.Cost Model.CostPgp.
 Open Scope N_scope.
 
 Definition aN (n : N) : arg := AZ (Z.of_N n).
@@ -13,6 +13,16 @@ Definition low8 (b : bytes) : arg := AB (N_to_be 8 (be_to_N (drop (length b - 8)
 Fixpoint flatten_raw (r : raw) : list arg :=
   match r with
   | Raw c t len full ch => AL [aN c; aN t; aN len; aN full; aN (lenN ch)] :: flat_map flatten_raw ch
+  end.
+
+(* what the harness prints for a typed packet: (kind ...) *)
+Definition obs_tpacket (p : tpacket) : arg :=
+  match p with
+  | TSig g => AL [AZ (if ts_v3 g then 2 else 1); aN (ts_type g)]
+  | TKey k secret =>
+      AL [AZ (if secret then 5 else if tk_v3 k then 4 else 3); aN (tk_algo k); ok_arg (tk_sub k)]
+  | TUid id => AL [AZ 6; aN (lenN id)]
+  | TAttr n => AL [AZ 7; aN n]
   end.
 
 (* ---- the model's observation ---- *)
@@ -37,22 +47,19 @@ Definition run_C08 (op : bytes) (input : arg) : arg :=
   else if bytes_eqb op (bs "rpm") then
     (* file.RPMFile: accepted or refused (pre-validation rpmCheckIndex, then the library) *)
     obs_cres (fun _ => AL []) (rpm_file data)
+  else if bytes_eqb op (bs "armor") then obs_cres aN (armor_decode data)
+  else if bytes_eqb op (bs "pgptyped") then
+    match fst (pgp_typed_all (aux_ripemd aux) data) with
+    | (ps, e) => AL [AL (map obs_tpacket ps); AZ (match e with TEnd => 0 | _ => 1 end)]
+    end
+  else if bytes_eqb op (bs "pgpread") then
+    obs_cres (fun x => AL [aN (snd x)]) (pgp_read_entity (aux_ripemd aux) (aux_keyid aux) (aux_verify aux) data)
   else if bytes_eqb op (bs "stream") then
     (* input: (length-or--1 pattern): the CLI reads min(length, cap) bytes and exits 0 *)
     let len := arg_Z (arg_nth 0 input) in
     AL [AZ 0; aN (if (len <? 0)%Z then max_read_size else N.min (Z.to_N len) max_read_size)]
   else if bytes_eqb op (bs "file") then AL [AZ 0; AZ 1]
-  else if bytes_eqb op (bs "alloc") then
-    (* informational (this op is not compared): the model's cost account of the component *)
-    let comp := arg_bytes (arg_nth 0 input) in
-    match arg_nth 2 input with
-    | AB d =>
-        match component_log comp d (arg_bytes (arg_nth 3 input)) with
-        | Some l => AL [aN (log_cost l); ok_arg (log_trusting l)]
-        | None => AL []
-        end
-    | _ => AL []
-    end
+  else if bytes_eqb op (bs "alloc") then AL []    (* not compared; the cost account is evaluated by check_C08 *)
   else AL [].
 
 (* ---- the property, evaluated on what the implementation did (T3) ----
@@ -164,7 +171,7 @@ Definition check_C08 (op : bytes) (input impl : arg) : arg :=
     else
       match d with
       | AB data =>
-          match component_log comp data (arg_bytes (arg_nth 3 input)) with
+          match component_log_all comp data (arg_bytes (arg_nth 3 input)) with
           | Some l =>
               let c := log_cost l in
               if model_slack_up * c + model_base_up <? meas then
